@@ -2,6 +2,9 @@ module wsverif
 
 go 1.16
 
-require github.com/gobwas/ws v0.0.0
+require (
+	github.com/gobwas/httphead v0.1.0
+	github.com/gobwas/ws v0.0.0
+)
 
 replace github.com/gobwas/ws => /repo
